@@ -19,12 +19,21 @@ WORDS = {"SELECT", "FROM", "WHERE", "AND", "OR", "NOT", "AS", "ON", "JOIN", "GRO
          "CASCADE", "ACTION", "NO", "RESTRICT", "DEFAULT", "COMMENT", "AUTO_INCREMENT", "UNSIGNED", "ZEROFILL", "CHARACTER", "COLLATE", "ENGINE", "CHARSET",
          "ROW_FORMAT", "STATS_PERSISTENT", "STORED", "TEXTFILE", "LOCATION", "ROW", "FORMAT", "SERDE", "DELIMITED", "FIELDS", "TERMINATED", "ALTER", "ADD", "MODIFY",
          "CHANGE", "RENAME", "COLUMN", "TO", "DROP", "BTREE", "KEY_BLOCK_SIZE", "CURRENT_TIMESTAMP", "INT", "VARCHAR", "DECIMAL", "BIGINT", "DATETIME", "TEXT",
-         "SUM", "COUNT", "MAX", "MIN", "INNODB", "DYNAMIC", "UTF8", "UTF8MB4", "UTF8_BIN"}
+         "SUM", "COUNT", "MAX", "MIN", "INNODB", "DYNAMIC", "UTF8", "UTF8MB4", "UTF8_BIN",
+         "CAST", "EXTRACT", "OVER", "ROWS", "PRECEDING", "FOLLOWING", "UNBOUNDED", "CURRENT", "LATERAL", "VIEW", "SORT", "DISTRIBUTE", "CLUSTER", "XOR", "RLIKE", "REGEXP",
+         "SIGNED", "CHAR", "DATE", "STRING", "TRUNCATE", "USE", "ANALYZE", "COMPUTE", "STATISTICS", "FOR", "COLUMNS", "CACHE", "METADATA", "NOSCAN", "MSCK", "REPAIR", "SHOW",
+         "DATABASES", "TABLES"}
+
+
+COMMENT_SEPS = ["/*c*/", "/**c**/", "/***/", "/*c**/", "/****/", "--c\n", "/*;*/"]
+
+
+TOK = re.compile(r"'(?:[^'\\]|\\.|'')*'|\"(?:[^\"\\]|\\.)*\"|`[^`]*`|\d+\.\d+|\w+|<=>|<=|>=|<>|!=|<<|>>|&&|\|\||==|[^\w\s]", re.S)
 
 
 def rename(text):
     """replace every identifier / literal by a unique marker; returns (new text, markers)"""
-    ws = sqlgen.split_words(text)
+    ws = TOK.findall(text)
     out, marks = [], []
     for i, w in enumerate(ws):
         prev = ws[i - 1].upper() if i else ""
@@ -64,18 +73,25 @@ def run(run):
     fails, dis = [], []
     # (a) unique renaming
     cases = []
-    for _ in range(400 if tier_q else 6000):
-        t, tree = g.statement()
+    n_st = 400 if tier_q else 6000
+    for i in range(n_st + n_st // 6):
+        t, tree = g.statement() if i < n_st else g.paren_case()
         hive_only = any(tree.get(k) for k in ("stored_as_textfile", "location", "row_format_serde", "row_format_delimited_fields_terminated_by")) if tree["_"] == "ASTCreateTableStatement" else False
         mysql_only = tree["_"] == "ASTCreateTableStatement" and (any(tree.get(k) for k in ("engine", "auto_increment", "default_charset", "collate", "row_format", "states_persistent", "primary_key", "unique_key", "key", "foreign_key"))
                                                                   or any(any(c.get(a) for a in ("is_unsigned", "is_zerofill", "character_set", "collate", "is_allow_null", "is_not_null", "is_auto_increment", "default", "on_update")) for c in tree["columns"])
                                                                   or any(c["column_type"]["params"] and c["column_type"]["name"] not in ("DECIMAL", "VARCHAR") for c in tree["columns"]))
         if hive_only and mysql_only:
             continue                                         # no single dialect prints all of it (K-DIALECT-OMIT)
-        d = "HIVE" if hive_only else "MYSQL"
+        d = "HIVE" if (hive_only or g.hive) else "MYSQL"
         if tree["_"] == "ASTAlterTableStatement" and d != "MYSQL":
             d = "MYSQL"
         t2, marks = rename(t)
+        if run.rng.random() < 0.3:
+            # comments (written without blanks) in place of some separators: nothing next to a comment may vanish
+            ws = t2.split(" ")
+            t2 = ws[0]
+            for w in ws[1:]:
+                t2 += (run.rng.choice(COMMENT_SEPS) if run.rng.random() < 0.25 else " ") + w
         cases.append((d, t2, marks))
     reqs = [sqlgen.parse_request("statements", d, t) for d, t, _ in cases]
     preqs = [stmt.print_request("statements", d, d, t) for d, t, _ in cases]
@@ -104,9 +120,13 @@ def run(run):
     run.add_stream("unique renaming", 2 * len(cases), judged, [{"dialect": c[0], "text": c[1][:200]} for c in cases[:: max(1, len(cases) // 3)][:3]])
     # (b) stray tokens
     sreqs, smeta = [], []
-    for d, t, marks in cases[: (150 if tier_q else 2500)]:
+    for ci, (d, t, marks) in enumerate(cases[: (120 if tier_q else 2500)] + cases[n_st:][: (60 if tier_q else 1000)]):
         ws = t.split(" ")
-        for pos in run.rng.sample(range(len(ws) + 1), min(len(ws) + 1, 4 if tier_q else 10)):
+        after_close = [i + 1 for i, w in enumerate(ws) if w == ")"]
+        chosen = run.rng.sample(range(len(ws) + 1), min(len(ws) + 1, 3 if tier_q else 8)) + run.rng.sample(after_close, min(len(after_close), 2 if tier_q else 4))
+        if ci >= (120 if tier_q else 2500):
+            chosen += after_close[-3:]              # bracketed SELECTs: between and behind the closing brackets
+        for pos in chosen:
             stray = run.rng.choice(["zq9", "'zq9'", "979797", "`zq9`"])
             t2 = " ".join(ws[:pos] + [stray] + ws[pos:])
             sreqs.append(sqlgen.parse_request("statements", d, t2))
